@@ -77,11 +77,11 @@ impl Out {
         let types: Vec<String> = b.columns().iter().map(|c| dump::type_str(c.data_type())).collect();
         if small && *weight + w <= MAX_EVENT_WEIGHT {
             *weight += w;
-            self.batches.push(json!({"big": false, "schema": dump::schema_desc(&b.schema()), "cols": cols, "nrows": b.num_rows().min(1 << 30), "vf": vf, "lens": lens, "types": types}));
+            self.batches.push(json!({"big": false, "decl": self.declared, "schema": dump::schema_desc(&b.schema()), "cols": cols, "nrows": b.num_rows().min(1 << 30), "vf": vf, "lens": lens, "types": types}));
         } else {
             self.big += 1;
             let none: Vec<Value> = vec![];
-            self.batches.push(json!({"big": true, "schema": dump::schema_desc(&b.schema()), "cols": none, "nrows": b.num_rows().min(1 << 30), "vf": vf, "lens": lens, "types": types}));
+            self.batches.push(json!({"big": true, "decl": self.declared, "schema": dump::schema_desc(&b.schema()), "cols": none, "nrows": b.num_rows().min(1 << 30), "vf": vf, "lens": lens, "types": types}));
         }
     }
 }
@@ -145,7 +145,12 @@ pub fn run(fmt: &str, api: &str, data: &[u8], extra: &Extra) -> Out {
                     break;
                 }
                 match dec.decode(&mut buf) {
-                    Ok(Some(b)) => out.batch(&b, &mut w),
+                    Ok(Some(b)) => {
+                        if let Some(s) = dec.schema() {
+                            out.declare(&s);
+                        }
+                        out.batch(&b, &mut w)
+                    }
                     Ok(None) => {}
                     Err(_) => {
                         out.err("decode");
@@ -310,7 +315,12 @@ fn flight(out: &mut Out, api: &str, bytes: &[u8], cap: usize) {
                 out.outcome = "ok".into();
                 break;
             }
-            Some(Ok(b)) => out.batch(&b, &mut w),
+            Some(Ok(b)) => {
+                if let Some(s) = st.schema() {
+                    out.declare(s);
+                }
+                out.batch(&b, &mut w)
+            }
             Some(Err(_)) => {
                 out.err("decode");
                 break;
